@@ -1,6 +1,6 @@
 """C03 — convergence: the anchored string-level mechanisms are fixed points."""
 from mirsym import models_typst as T
-from . import kern, comments, lists
+from . import kern, comments, lists, c19
 
 EXPLANATION = (
     "Bounded symbolic execution (MIR->SMT, z3) of two of the three mechanisms the property is anchored in; the end-to-end statement "
@@ -10,7 +10,9 @@ EXPLANATION = (
     "start column in the stated set, the comment as laid out by align()/hang(1) and post-processed is mapped by a second "
     "block_comment pass to the same text and the same style. (3) ListStylist with every ListStyle the crate builds over item/comma/"
     "whitespace sequences of up to K nodes: a list laid out on one line holds no doubled blank and no blank before a separator, i.e. "
-    "kept blank lines leave no trace when the list is folded. Multiline-flavour / attach-detach / boundary reproduction (mechanism 1 of "
+    "kept blank lines leave no trace when the list is folded. (4) convert_import_items with reordering on: the order chosen for items "
+    "with source spacing (doubled blanks, blanks around dots) equals the order chosen for the same items with formatted spacing. "
+    "Multiline-flavour / attach-detach / boundary reproduction (mechanism 1 of "
     "the anchors) is outside the claim.")
 
 
@@ -26,5 +28,21 @@ def run(S):
     # one-line list layouts are fixed points (kept blank lines must not leave traces when the list is folded)
     f3 = lists.explore(S, 4 if S.tier == 'quick' else 5, want=('C03',), cats=('item', 'comma', 'space'), between_items=True)
     lists.report(S, 'C03', f3)
+    # with reordering on, the chosen order must not depend on spacing that formatting normalises
+    f4 = c19.explore_spacing(S, 2 if S.tier == 'quick' else 3)
+    groups = {}
+    for lab, info in f4:
+        groups.setdefault(lab, []).append(info)
+    for lab, infos in groups.items():
+        hit = None
+        for info in infos[:8]:
+            w = c19.confirm_spacing(S, info)
+            if w:
+                hit = (info, w)
+                break
+        if hit:
+            S.violation(lab, '%s: %s' % (lab, hit[1]['what']), dict(api=hit[1], model=hit[0]))
+        else:
+            S.inconclusive.append('%s: no solver model reproduced natively (%r)' % (lab, infos[0]))
     S.assumptions += comments.ASSUMPTIONS + lists.ASSUMPTIONS
     return S.finish(level='other', explanation=EXPLANATION, trusted=['mirsym encoder', 'std string contracts', 'pretty align/hang semantics'])
